@@ -51,6 +51,22 @@ M = [
   "   TypedArg< T1>::assign( value, inverted);\n   mDestVar2 = mValue2;", "   TypedArg< T1>::assign( value, inverted);"),
  ("c02_value_orig_check_off", "src/celma/prog_args/detail/typed_arg_value.hpp",
   "   if (mCheckOrigValue && (mDestVar != mOrigValue))", "   if (false && mCheckOrigValue && (mDestVar != mOrigValue))"),
+ # sub-groups and value mode 'command' (docs/notes_prog_args_subgroups.md)
+ ("c03_subgroup_skips_next_word", "src/library/prog_args/handler.cpp",
+  "      if (!subUsed && (ai != end))\n         ai = keyAI;", "      if (false && !subUsed && (ai != end))\n         ai = keyAI;"),
+ ("c03_subgroup_keeps_last_arg", "src/library/prog_args/handler.cpp",
+  "         ai = keyAI;\n\n      mpLastArg = nullptr;\n      return ArgResult::consumed;", "         ai = keyAI;\n\n      return ArgResult::consumed;"),
+ ("c08_subgroup_one_argument_only", "src/library/prog_args/handler.cpp",
+  "         ai = subAI++;\n         subUsed = true;\n      } // end while", "         ai = subAI++;\n         subUsed = true;\n         break;\n      } // end while"),
+ ("c08_groups_ignore_command_last", "src/library/prog_args/groups.cpp",
+  "      if (result == Handler::ArgResult::last)\n         break;   // for", "      if (false && (result == Handler::ArgResult::last))\n         break;   // for"),
+ ("c01_command_long_key_refused", "src/celma/prog_args/detail/arg_list_iterator.hpp",
+  "   return (mCurrElement.mElementType != E::Type::singleCharArg)\n      || ((mCurrElement.mArgCharPos == 1)\n          && (mpArgV[ mCurrElement.mArgIndex][ 2] == '\\0'));",
+  "   return (mCurrElement.mElementType == E::Type::singleCharArg)\n      && (mCurrElement.mArgCharPos == 1)\n      && (mpArgV[ mCurrElement.mArgIndex][ 2] == '\\0');"),
+ ("c01_command_positional_drops_first_word", "src/library/prog_args/handler.cpp",
+  "handleIdentifiedArg( hdl, mPosKey, ai.argsAsString());", "handleIdentifiedArg( hdl, mPosKey, ai.argsAsString( false));"),
+ ("c04_command_rest_reads_argv_end", "src/celma/prog_args/detail/arg_list_iterator.hpp",
+  "   for (; argi < mArgC; ++argi)\n   {\n      remaining.append", "   for (; argi <= mArgC; ++argi)\n   {\n      remaining.append"),
  ("c18_hidden_shown_in_optional", "src/library/prog_args/detail/argument_desc.cpp", "          && (printHidden || !mpArgObj->isHidden())",
   "          && (printHidden || !mpArgObj->isHidden() || !printIsMandatory)"),
  ("c18_long_only_uses_short_test", "src/library/prog_args/detail/argument_desc.cpp", "                  && mpArgObj->key().hasStringArg()));",
